@@ -40,6 +40,7 @@ MAP = {
     "C16_m3": [("C16", "setters_close")], "C16_m4": [("C16", None)],
     "R_g711_intmin": [("C20", "g711.H_ENCODE_I")], "R_d2sc_clip": [("C02", "sc.WR_D.norm1.clip1")], "R_cmdstr0": [("C17", "cmd.SFC_GET_LIB_VERSION")],
     "R_embedshort": [("C14", "embed_open.au.k4,embed_open.au.k1.")], "R_peak_double": [("C18", "peak.double64.double.ch1")], "R_sds_close": [("C01", "blk.sds16.flush.k10")],
+    "R_htk_sr0": [("C10", "open_sr.htk")],
     "R_paf24_norm": [("C05", "stage.paf24.write.float")],
     "R_d2i_clip": [("C02", "fconv.double64.d2i_clip")],
     "R_cart_calloc": [("C03", "wavleaf.cart")],
